@@ -33,6 +33,8 @@ def gen_cases(tier, seed):
         cs, _ = mod.gen_cases("quick", seed + 7)
         cs = [c for c in cs if not c.startswith("rssi")]
         cases += rng.sample(cs, min(per, len(cs)))
+    # boundary families that sampling must not drop
+    cases += c08.count_cases(rng)
     return cases, {"per_source_property": per, "total": len(cases)}
 
 
